@@ -6,6 +6,19 @@ from vstat.terms import dict_entries
 from vstat.cfg import cfg_of
 
 
+class SharedDict(AnalysisError):
+    """The keyword dict is not created in the call: it is an attribute, a global or an argument."""
+
+    def __init__(self, msg, term, stmt):
+        super().__init__(msg)
+        self.term, self.stmt = term, stmt
+
+
+def _shared(t):
+    from vstat.terms import alts
+    return any(a[0] in ("attr", "global", "param", "self") or (a[0] == "sub" and _shared(a[1])) for a in alts(t))
+
+
 def local_dict_stores(fn, b, pcs, name):
     """[(key, value term, literals, stmt)] for ``name = {...}`` / ``name[const] = v`` in fn, in statement order.
     Raises AnalysisError for anything that is not modelled (update/pop/setdefault, non-constant keys, stores in loops)."""
@@ -16,7 +29,10 @@ def local_dict_stores(fn, b, pcs, name):
         if isinstance(st, ast.Assign):
             for tg in st.targets:
                 if isinstance(tg, ast.Name) and tg.id == name:
-                    ents = dict_entries(b.term(st.value, st))
+                    tv = b.term(st.value, st)
+                    ents = dict_entries(tv)
+                    if ents is None and _shared(tv):
+                        raise SharedDict(f"{q}: {name} is {tv} - not a dict created in this call", tv, st)
                     if ents is None:
                         raise AnalysisError(f"{q}: {name} is not initialised with an enumerable dict (display, ** merge, filtered copy)")
                     for k, v, lits in ents:
